@@ -10,5 +10,6 @@ CONSTANTS
   Groups = {"space"}
   MaxTok = 6
   FxAll = TRUE
+  Shared = FALSE
 INVARIANTS Refines
 CHECK_DEADLOCK FALSE
